@@ -1072,10 +1072,12 @@ def oracle_c18(world, result):
             V.append({"clause": "c18.loss_nan", "detail": f"step {s['t']}: parameters finite but the batch loss is NaN (fault row in batch: {le[li]['has_fault_row']})"})
             break
         exploded = any(a.size and float(np.max(np.abs(a))) > EXPLODED_PARAM for a in s["params"])
-        if p_fin and np.isfinite(loss) and abs(loss) > HUGE_LOSS and exploded:
-            # training has already diverged (a parameter beyond 1e3 in magnitude) and the loss is astronomically
-            # large: NaN gradients here are float32 overflow (inf - inf), not the unselected-branch NaNs of the property
-            P["vacuous_huge_loss_exploded_params"] = P.get("vacuous_huge_loss_exploded_params", 0) + 1
+        if p_fin and np.isfinite(loss) and exploded:
+            # training has already diverged (a parameter beyond 1e3 in magnitude, reached through an enormous but finite
+            # gradient): the property quantifies over parameters 'at initialisation and perturbed', and in such states
+            # non-finite gradients are float32 cancellation/overflow (e.g. the spline inverse's quadratic with knot
+            # derivatives of 1e8), not the unselected-branch NaNs the property is about
+            P["vacuous_exploded_params"] = P.get("vacuous_exploded_params", 0) + 1
             continue
         if p_fin and np.isfinite(loss) and abs(loss) > HUGE_LOSS and not any(np.any(np.isnan(g)) for g in s["grads"]):
             # astronomically large but finite loss whose gradient leaves are finite or +-inf: the true
